@@ -30,7 +30,14 @@ def cast_state(
         state_tuple = state
 
     # Cast to init_state: Tuple[Tensor, ...] with desired dtype and device
-    state_tensor_tuple: Tuple[Tensor, ...] = tuple(map(torch.as_tensor, state_tuple))
-    state_tensor_tuple = tuple(map(lambda t: t.to(device, dtype), state_tensor_tuple))
+    # Scalars are converted directly to the desired dtype: going through the
+    # default dtype first would round e.g. 0.04 to float32 precision even when
+    # float64 is requested.
+    state_tensor_tuple: Tuple[Tensor, ...] = tuple(
+        t.to(device, dtype)
+        if isinstance(t, Tensor)
+        else torch.as_tensor(t, dtype=dtype, device=device)
+        for t in state_tuple
+    )
 
     return state_tensor_tuple
